@@ -61,6 +61,11 @@ func syncConcurrent(rng *rand.Rand, nops int) int {
 		go func(g int) {
 			defer wg.Done()
 			defer done[g].Store(true)
+			defer func() {
+				if p := recover(); p != nil { // the primitive itself panicked
+					emit("sync", "panic", "msg", fmt.Sprint(p))
+				}
+			}()
 			r := rand.New(rand.NewSource(seed))
 			// owner strings name the operation kind, not the goroutine (as store.go does), so
 			// two goroutines regularly present the same owner
